@@ -119,6 +119,7 @@ func (c *Client) handleList() error {
 			}
 			cmd.pendingData = data
 		} else {
+			verifPoint("deliver", cmd.tag)
 			cmd.mailboxes <- data
 		}
 	case *SelectCommand:
